@@ -134,6 +134,7 @@ func (s *Sim) injectLegacyPod(def *EDSDef, node *corev1.Node, ps PodState) {
 		},
 		Spec: corev1.PodSpec{Containers: []corev1.Container{{Name: "main", Image: "legacy:1"}}},
 	}
+	ps.Unsched = false // a DaemonSet pod without node name or node affinity does not exist
 	s.finishInjected(p, node.Name, ps)
 }
 
